@@ -138,6 +138,35 @@ func cmdCheck(prop, tier string) int {
 		keys = append(keys, k)
 	}
 	errs := append(bindErrs, s.verifyFuncs(keys)...)
+	// Proof-tree closure (opt-in, GOWP_CLOSURE=1): a property's proof uses the contracts of the callees of its
+	// functions; with the option those callees (and theirs) are verified here too, with all their clauses, whatever
+	// property they are tagged with. Off by default: it makes the check of one property report violations of
+	// clauses that belong to another (a change that breaks only C10 would be reported by the check of C16 too).
+	if os.Getenv("GOWP_CLOSURE") != "" {
+		done := map[string]bool{}
+		for _, k := range keys {
+			done[k] = true
+		}
+		for round := 0; round < 8; round++ {
+			var more []string
+			for _, k := range sortedKeys(x.usedContracts) {
+				c := s.specs.Contracts[k]
+				if done[k] || c == nil || c.Dep || c.Callback || c.Trusted != "" || x.lookupFunc(k) == nil {
+					continue
+				}
+				done[k] = true
+				more = append(more, k)
+			}
+			if len(more) == 0 {
+				break
+			}
+			save := x.onlyTag
+			x.onlyTag = ""
+			errs = append(errs, s.verifyFuncs(more)...)
+			x.onlyTag = save
+			keys = append(keys, more...)
+		}
+	}
 	// lemmas
 	lemmaObls := x.lemmaObligations(prop)
 	all := append(append([]*Obligation(nil), x.obls...), lemmaObls...)
